@@ -975,9 +975,14 @@ def r8_index_row_follows_the_layout(repo=None):
         p_ = e.path()
         if p_ and p_.startswith(clib.OBJ + "->"):
             return p_, pol
+        p_ = clib.alias_path(cf, e)         # `const int flag = obj->flag;`
+        if p_ and p_.startswith(clib.OBJ + "->"):
+            return p_, pol
         return None
     layout = None
-    for path, node, rhs, kind in clib.stores(cf):
+    row_defs = list(clib.stores(cf)) + [(d.name, d, d.children[-1], "=") for d in cf.find("VarDecl") if d.name == rows and d.children
+                                         and d.children[-1].kind != "InitListExpr"]
+    for path, node, rhs, kind in row_defs:
         if path != rows or kind != "=" or rhs is None:
             continue
         t_ = rhs.strip(casts=True)
@@ -1047,12 +1052,22 @@ def r8_index_row_follows_the_layout(repo=None):
     return r
 
 
+def r9_reads_return_fresh_arrays(repo=None):
+    """'read returns the samples that were written' for every read of a history, the second read of the same samples included:
+    the arrays handed out must not share memory with the reader's open-file cache (C08.R11)."""
+    from . import c08
+    return c08.r11_cache_hands_out_no_views(repo, rid="C01.R9")
+
+
 def rules(repo=None):
     return [lambda: r8_index_row_follows_the_layout(repo), lambda: r7_cast_targets_keep_the_reported_byte_order(repo), lambda: r1_dtype_table(repo), lambda: r2_name_format_agreement(repo), lambda: r3_exact_lookup(repo),
-            lambda: r4_extension_passthrough(repo), lambda: r5_interface_agreement(repo), lambda: r6_exact_index_use(repo)]
+            lambda: r4_extension_passthrough(repo), lambda: r5_interface_agreement(repo), lambda: r6_exact_index_use(repo),
+            lambda: r9_reads_return_fresh_arrays(repo)]
 
 
 EXPLANATION = (
+    'R9 (= C08.R11): the open-file cache of the reader keeps the data set object, or copies every slice it hands out - no array '
+    'returned by read shares memory with the cache. '
     'Seven structural necessary conditions of the round trip. R1: every row of get_hdf5_data_type agrees with its HDF5 '
     'constant on class, width and byte order and the table is exhaustive for what DigitalRFWriter can pass. R2: regular-'
     "language equality of the C writer's final file-name/sub-directory formats with the reader's formats, inclusion in "
